@@ -367,6 +367,10 @@ Section FrameAll.
   Proof. intros H. destruct l as [|f up]; cbn [varmap_clear]; [constructor|]. inversion H; subst. constructor; [constructor|assumption]. Qed.
 End FrameAll.
 
+(* shifts of graph ids (ids below gb1 fixed) and of store locations *)
+Definition shg (gb1 gb2 : N) (i : N) : N := if i <? gb1 then i else i - gb1 + gb2.
+Definition shl (kb1 kb2 : N) (l : N) : N := l - kb1 + kb2.
+
 (* ---------------- the hypothesis on function calls ----------------
    A function of the fragment (i) neither reads nor changes the graph, (ii) commutes with every renaming of
    graph-node ids that preserves the order of the ids occurring in its arguments, errors included, and
